@@ -81,7 +81,7 @@ def publicise(path):
                     publicise(os.path.join(d, f))
         return
     s = open(path).read()
-    s = re.sub(r"^(\s*)fn (c\d\d\w*)\(\)", r"\1pub(crate) fn \2()", s, flags=re.M)
+    s = re.sub(r"^(\s*)fn (\$?\w+)\(\) \{", r"\1pub(crate) fn \2() {", s, flags=re.M)
     s = re.sub(r"^(\s*)mod (\$?\w+) \{", r"\1pub(crate) mod \2 {", s, flags=re.M)
     open(path, "w").write(s)
 
@@ -185,7 +185,7 @@ def apply(ov, lift_asm=True, log=None):
                 if owner.endswith("lib.rs"):
                     fh.write(f"#[cfg(kani)]\n#[allow(dead_code, unused)]\n{vis}mod {m};\n")
                 else:
-                    fh.write(f"#[cfg(kani)]\n#[allow(dead_code, unused)]\nmod {m};\n")
+                    fh.write(f"#[cfg(kani)]\n#[allow(dead_code, unused)]\npub(crate) mod {m};\n")
     if lift_asm:
         # the macro shadow must be textually in scope before first use: declare verif_isa first in lib.rs
         lib = os.path.join(ov, "src", "lib.rs")
